@@ -262,6 +262,9 @@ def _post_dssr(snap, result, exc, args, kwargs):
                 want_st.append((nts[i - 1], nts[i]))
     got_st = [(s.nt1.full_name, s.nt2.full_name) for s in result.stackings]
     rec.check("dssr.stacks", got_st == want_st, lambda: {"got": got_st[:8], "want": want_st[:8], "doc": json.dumps(doc)[:600]})
+    members = {id(r) for r in args[1].residues}
+    foreign = [x.full_name for p in list(result.basePairs) + list(result.stackings) for x in (p.nt1, p.nt2) if id(x) not in members]
+    rec.check("dssr.residues-belong-to-structure", not foreign, lambda: {"not-from-this-structure": foreign[:6], "doc": json.dumps(doc)[:300]})
     rec.check("dssr.nothing-else", not (result.baseRiboseInteractions or result.basePhosphateInteractions or result.otherInteractions), lambda: {"doc": json.dumps(doc)[:300]})
 
 
@@ -334,6 +337,9 @@ def cases(shard, nshards, seed, tier):
             yield {"family": "fr3d-listing", "i": i}
     if mine():
         yield {"family": "fr3d-corpus", "file": "tests/184D-fr3d.txt"}
+    for k in range(2 if tier == "quick" else 12):
+        if mine():
+            yield {"family": "adapter-cli", "k": k}
     nd = 150 if tier == "quick" else 3000
     for i in range(nd):
         if mine():
@@ -477,6 +483,9 @@ def run_case(case, rec):
         finally:
             os.unlink(path)
         return
+    if fam == "adapter-cli":
+        _adapter_cli(case, rec)
+        return
     if fam == "dssr-doc":
         s3 = _structure(case["structure"])
         rng = random.Random(f"{os.environ.get('VERIF_SEED', '0')}:C19:d:{case['i']}")
@@ -492,6 +501,57 @@ def run_case(case, rec):
             rec.mark_nontrivial(True)
         finally:
             os.unlink(path)
+
+
+def _adapter_cli(case, rec):
+    """adapter.main in-process on a corpus structure + FR3D listing; the CSV it
+    writes must list exactly the interactions the importer returned."""
+    import contextlib
+    import csv
+    import io
+    import shutil
+    import sys
+    from rnapolis import adapter
+
+    rng = random.Random(f"{os.environ.get('VERIF_SEED', '0')}:C19:cli:{case['k']}")
+    d = tempfile.mkdtemp(prefix="vmon-c19-")
+    old = sys.argv
+    try:
+        if case["k"] == 0:
+            ext = os.path.join(core.REPO, "tests/184D-fr3d.txt")
+            text = open(ext).read()
+        else:
+            # listing over 184D residue names (chain A / A-2 as in the corpus listing)
+            lines = []
+            for _ in range(rng.randint(5, 30)):
+                a, b = rng.sample(range(1, 7), 2)
+                lab = _rand_label(rng)
+                lines.append(f"XXXX|1|A|DG|{a}\t{lab}\tXXXX|1|A|DC|{b}\t0")
+            text = "\n".join(lines) + "\n"
+            ext = os.path.join(d, "ext.txt")
+            open(ext, "w").write(text)
+        want = [w for w in ref_listing(text)]
+        rec.mark_nontrivial(any(w is not None and w[0] != "other" for w in want))
+        pcsv = os.path.join(d, "o.csv")
+        sys.argv = ["adapter", os.path.join(core.REPO, "tests/184D.cif"), "--external", ext, "--tool", "fr3d", "--csv", pcsv]
+        buf = io.StringIO()
+        try:
+            with contextlib.redirect_stdout(buf):
+                adapter.main()
+        except Exception as e:
+            rec.violation("cli.no-exception", {"case": case, "exception": repr(e)[:300]}, mechanism=f"crash:{type(e).__name__}")
+            return
+        if any(w is None for w in want):
+            rec.undecided("cli.csv-lists-imported-interactions", "undecided lines")
+            return
+        rows = list(csv.reader(open(pcsv)))[1:]
+        kinds = {"base-pair": "base pair", "stacking": "stacking", "base-phosphate": "base-phosphate interaction", "base-ribose": "base-ribose interaction", "other": "other interaction"}
+        wantk = sorted((kinds[w[0]], w[1] or "") for w in want)
+        gotk = sorted((r[2], r[3]) for r in rows)
+        rec.check("cli.csv-lists-imported-interactions", gotk == wantk, lambda: {"case": case, "got": gotk[:8], "want": wantk[:8]})
+    finally:
+        sys.argv = old
+        shutil.rmtree(d, ignore_errors=True)
 
 
 def classify(v):
